@@ -4,7 +4,7 @@ checker decides), and multi-module programs (an imported module per program, pla
 checker accepts, compile+run must not produce an internal compiler error, a VM shape complaint or a host panic, and the
 returned value must have the shape of the reported type."""
 import json, random, time, itertools
-import vlib, langlib
+import vlib, langlib, wlib
 
 PID = "C02"
 FLAGS = ["prelude", "optimize", "debug", "run_io", "full_metadata"]
@@ -97,7 +97,20 @@ def run(tier):
                 j.update({"id": len(jobs), "src": main, "modules": mods, "fresh": True})
                 meta[j["id"]] = ("module:" + vname, o, s)
                 jobs.append(j)
-    vlib.log("[C02] %d runs (%d programs x %d setting combinations + module programs)" % (len(jobs), len(progs), len(combos)))
+    # untyped ML-fragment terms (LangW.tla): whatever the checker accepts must run without going wrong
+    from checks import c03
+    wterms, wr = c03.terms("quick" if tier == "quick" else "thorough", seed)
+    rs.append(wr)
+    if tier == "quick" and len(wterms) > 12000:
+        wterms = rnd.sample(wterms, 12000)
+    for t in wterms:
+        for s in ({"prelude": False, "optimize": True, "debug": True, "run_io": False, "full_metadata": False},
+                  {"prelude": False, "optimize": False, "debug": False, "run_io": False, "full_metadata": True}):
+            j = dict(s)
+            j.update({"id": len(jobs), "src": wlib.render(t["p"])})
+            meta[j["id"]] = ("wterm", {"p": t["p"], "ty": "?", "k": "wterm", "typable": t["ok"]}, s)
+            jobs.append(j)
+    vlib.log("[C02] %d runs (%d programs x %d setting combinations + module programs + %d ML-fragment terms)" % (len(jobs), len(progs), len(combos), len(wterms)))
     res = vlib.run_pool(["lang"], jobs, workers=14, job_timeout=30)
     accepted_runs = shape_checked = 0
     for j in jobs:
@@ -108,6 +121,10 @@ def run(tier):
         c, key = classify(r)
         rep = {"p": o["p"], "src": j["src"], "modules": j.get("modules"), "settings": s, "observed": r}
         sk = setting_key(s)
+        if c == "bad" and kind == "wterm" and not o.get("typable") and r["status"] in ("crash", "hang"):
+            # the checker itself dies on an untypable term (infinite type): nothing was accepted; this is C09's claim
+            V.divergence("checker stack overflow on an untypable term: %s" % j["src"].splitlines()[-1][:100])
+            continue
         if c == "bad":
             V.violation("%s:%s" % (kind.split(":")[0] if kind.startswith("module") else kind, key) if not kind.startswith("module") else "%s:%s" % (kind, key),
                         "accepted program went wrong under settings %s (prelude,optimize,debug,run_io,full_metadata): %s\n%s" % (sk, r["msg"][:300], j["src"]), rep)
